@@ -282,6 +282,104 @@ def oracle_instance(case):
                 sample={"tree": case["tree"], "name": name, "code": code})
 
 
+# -- registry histories: the registry changes between calls on ONE dispatcher
+
+
+@st.composite
+def history_cases(draw):
+    trees = draw(st.lists(tree_specs(), min_size=1, max_size=3))
+
+    def paths(t, prefix=()):
+        for k, v in t.items():
+            yield prefix + (k,)
+            if isinstance(v, dict):
+                for p in paths(v, prefix + (k,)):
+                    yield p
+    allp = sorted(set(p for t in trees for p in paths(t)))
+    steps = [("register", 0)]
+    for _ in range(draw(st.integers(2, 8))):
+        k = draw(st.sampled_from(["call", "call", "call", "register", "delete"]))
+        if k == "call":
+            segs = list(draw(st.sampled_from(allp)))
+            if draw(st.integers(0, 5)) == 0:
+                segs.insert(draw(st.integers(0, len(segs))), draw(st.sampled_from(["missing", "_priv", "__class__"])))
+            steps.append(("call", ".".join(segs)))
+        elif k == "register":
+            steps.append(("register", draw(st.integers(0, len(trees) - 1))))
+        else:
+            steps.append(("delete", list(draw(st.sampled_from(allp)))))
+    return {"trees": trees, "steps": steps, "version": draw(st.sampled_from([1.0, 2.0]))}
+
+
+def oracle_history(case):
+    import copy
+    from jsonrpclib.SimpleJSONRPCServer import SimpleJSONRPCDispatcher
+    from jsonrpclib.config import Config
+
+    disp = SimpleJSONRPCDispatcher(config=Config(version=case["version"]))
+    log = []
+    spec = None
+    root = None
+    generation = 0
+    stale_possible = False
+    n_calls = 0
+    for step in case["steps"]:
+        if step[0] == "register":
+            spec = copy.deepcopy(case["trees"][step[1]])
+            generation += 1
+            root = build_instance(spec, log, ("g%d" % generation,))
+            disp.register_instance(root)
+            stale_possible = n_calls > 0
+        elif step[0] == "delete":
+            # remove the attribute from the model and from the live object
+            node, obj = spec, root
+            path = step[1]
+            ok = True
+            for seg in path[:-1]:
+                if not isinstance(node, dict) or seg not in node or not isinstance(node[seg], dict):
+                    ok = False
+                    break
+                node, obj = node[seg], obj.__dict__[seg]
+            if ok and isinstance(node, dict) and path[-1] in node:
+                if node[path[-1]] == "method":
+                    delattr(type(obj), path[-1])
+                else:
+                    del obj.__dict__[path[-1]]
+                del node[path[-1]]
+                stale_possible = n_calls > 0
+        else:
+            name = step[1]
+            node = spec
+            status = "method"
+            private = False
+            for seg in name.split("."):
+                if seg.startswith("_"):
+                    private = True
+                    status = "unknown"
+                    break
+                if not isinstance(node, dict) or seg not in node:
+                    status = "unknown"
+                    break
+                node = node[seg]
+            else:
+                status = "method" if node == "method" else "object"
+            if status == "object" or not name:
+                continue
+            del log[:]
+            o, code, n_direct, client = dispatch_and_proxy(disp, name, [n_calls], case["version"], None if status == "method" else -32601, log)
+            n_calls += 1
+            if status == "method":
+                want = "g%d.%s" % (generation, name)
+                if code is not None or n_direct != 1 or o.get("result", [None])[0] != want:
+                    fail("C05/registry-history", "after the registry changed, %r answered %r (expected the method of the current instance, %s)" % (name, o, want), {"steps": case["steps"]})
+            else:
+                if code != -32601 or log:
+                    fail("C05/registry-history:stale-method" if log else "C05/code:-32601->%s" % code,
+                         "name %r no longer resolves in the registered instance but answered %r and invoked %r" % (name, o.get("error") or o.get("result"), log[:2]),
+                         {"steps": case["steps"]})
+    return Info(nt=stale_possible, classes=["registry-history", "steps:%d" % min(len(case["steps"]), 9)], sample={"trees": case["trees"], "steps": case["steps"]})
+
+
 # ---------------------------------------------------------------------------
 # 4. exceptions raised by callables
 
@@ -443,6 +541,9 @@ SUBS = [
     Sub("instances", oracle_instance, strategy=lambda tier: instance_cases(),
         budget={"quick": 3000, "thorough": 60000}, shards={"quick": 4, "thorough": 8},
         what="instance trees: dotted names with private segments are unknown methods"),
+    Sub("registry-history", oracle_history, strategy=lambda tier: history_cases(),
+        budget={"quick": 2500, "thorough": 40000}, shards={"quick": 4, "thorough": 8},
+        what="call / re-register instance / remove attribute sequences on one dispatcher: unknown means unknown in the current registry"),
     Sub("exceptions", oracle_exception, strategy=lambda tier: exception_cases(),
         budget={"quick": 3000, "thorough": 60000}, shards={"quick": 4, "thorough": 8},
         what="30 exception classes x generated messages -> -32603 naming type and text"),
